@@ -15,6 +15,8 @@ static int shortc(int a, int b) { int n = 0; if (a && ++n) ; if (b || ++n) ; if 
 static int cond_chain(int x) { return x < 0 ? -1 : x == 0 ? 0 : x < 10 ? 1 : x < 100 ? 2 : 3; }
 static void voidf(int *p) { if (*p > 3) return; *p += 10; }
 static long sumto(int n) { long s = 0; for (int i = 1, j = n; i <= j; ++i, --j) s += i + j; return s; }
+static unsigned char nx8(int v) { return v; }
+static long nxl(long v) { return v; }
 int main(void) {
 	P(fib(15)); P(collatz(27)); P(collatz(837799)); P(sw(-1)); P(sw(0)); P(sw(1)); P(sw(2)); P(sw(3)); P(sw(100)); P(sw(0x100000000L)); P(sw(-0x100000000L)); P(sw(0x100000001L)); P(sw(1L << 40));
 	P(swc('a')); P(swc('b')); P(swc(255)); P(swc(0)); P(swc('c')); P(swn(1, 1)); P(swn(1, 2)); P(swn(1, 3)); P(swn(2, 1)); P(swn(2, 2)); P(swn(3, 0));
@@ -24,5 +26,17 @@ int main(void) {
 	{ int i = 0; while (i < 3) { int j = i * 2; { int i = j + 1; P(i); } ++i; } }
 	{ char c = 0; if (c) P(1); else P(2); float f = 0.0f; if (f) P(3); else P(4); double d = 0.5; if (d) P(5); long l = 1L << 32; if (l) P(6); else P(7); void *p = 0; if (p) P(8); else P(9); if (!p) P(10); unsigned char u = 0; while (++u) ; P(u); }
 	{ long l = 1L << 32; int n = 0; while (l) { l >>= 8; n++; } P(n); for (l = 1L << 33; l; l >>= 11) n++; P(n); do n++; while (l); P(n); P(l ? 1 : 2); P((1L << 32) && 1); P(0x100000000L || 0); P(!(1L << 32)); double z = 0.0; P(z ? 1 : 2); P(!z); P(z || 0); P(-z && 1); }
+	{ /* the controlling expression of a switch is promoted: narrow results of casts, assignments, ++ and calls must be extended first */
+	  int v = 0x141, r = 0; signed char sc = 0; unsigned char uc = 255; short sh = 0; _Bool bb = 0;
+	  switch ((unsigned char)v) { case 0x41: r = 1; break; default: r = 100; } P(r);
+	  switch (sc = v) { case 0x41: r = 2; break; default: r = 200; } P(r);
+	  switch (sc = 0x1c1) { case -63: r = 3; break; case 0xc1: r = 33; break; default: r = 300; } P(r);
+	  switch (nx8(0x241)) { case 0x41: r = 4; break; default: r = 400; } P(r);
+	  switch (uc++) { case 255: r = 5; break; default: r = 500; } P(r);
+	  switch (uc += 0x105) { case 5: r = 6; break; default: r = 600; } P(r);
+	  switch (sh = 0x28001) { case -32767: r = 7; break; default: r = 700; } P(r);
+	  switch ((short)(v * 0x101)) { case 0x4241: r = 8; break; default: r = 800; } P(r);
+	  switch (bb = v) { case 1: r = 9; break; default: r = 900; } P(r);
+	  switch ((char)nxl(0x1234567841L)) { case 0x41: r = 10; break; default: r = 1000; } P(r); }
 	return sw(5);
 }
